@@ -12,6 +12,7 @@ from __future__ import annotations
 import hashlib
 import itertools
 import random
+import re
 import warnings
 from concurrent.futures import ProcessPoolExecutor
 
@@ -34,16 +35,22 @@ DATA_SRC = {
 NUMERIC = ["x", "z", "w", "`my col`"]
 CATEG = ["A", "B", "U"]
 MULTI = ["poly(x, 3)", "poly(z, 2)", "bs(w, df=4)", "C(A, contr.sum)", "C(B)", "C(A, contr.helmert)"]
-SCALAR_FN = ["center(x)", "scale(z)", "I(x ** 2)", "np.log(x + 1)"]
+SCALAR_FN = ["center(x)", "scale(z)", "I(x ** 2)", "np.log(x + 1)", "I(x * z)", "fn(w)"]
+
+
+def _fn(v):
+    return v * 2
+
 ATOMS = NUMERIC + CATEG + MULTI + SCALAR_FN
 DATA_COLUMNS = ["x", "z", "w", "my col", "A", "B", "U"]
 
 PRE = """import warnings; warnings.simplefilter('ignore')
 import numpy as np, pandas as pd
 from formulaic import Formula, model_matrix
+CONTEXT = {{'np': np, 'fn': (lambda v: v * 2)}}  # `fn`: a function living in the caller's context
 data = {data}
 formula = Formula({spec!r}, _ordering={ordering!r})
-mm = formula.get_model_matrix(data, output={output!r}, context={{'np': np}}, cluster_by={cluster!r})
+mm = formula.get_model_matrix(data, output={output!r}, context=CONTEXT, cluster_by={cluster!r})
 ms = mm.model_spec
 ncols = mm.shape[1]
 terms = {{str(t): t for t in ms.terms}}
@@ -146,7 +153,7 @@ def check_case(acc, case):
     data = eval(DATA_SRC[dkey], {"pd": pd})
     pre = PRE.format(data=DATA_SRC[dkey], spec=spec, ordering=ordering, output=output, cluster=cluster)
     base = {"formula": spec, "ordering": ordering, "data": dkey, "output": output, "cluster_by": cluster}
-    ctx = {"np": np}
+    ctx = {"np": np, "fn": _fn}
 
     def W(assertion):
         return dict(base, code=pre + assertion + "\n")
@@ -343,31 +350,62 @@ def check_case(acc, case):
     except (ValueError, KeyError):
         pass
 
-    # ---- 7. variable -> column indices (data columns and plain callables)
-    ok, vi = attempt("C10.variables.indices", "variable_indices", "ms.variable_indices", lambda: {str(k): list(v) for k, v in ms.variable_indices.items()})
-    if ok:
-        uses = {}
-        for t in terms:
-            for f in t.factors:
-                if f.eval_method.value == "literal":
-                    continue
-                for n in names_in_expr(f.expr):
-                    uses.setdefault(n, set()).update(truth[id(t)])
-        for v in DATA_COLUMNS:
-            want = sorted(uses.get(v, ()))
-            got = vi.get(v)
-            if v not in uses:
-                if got:
-                    acc.fail("C10.variables.indices", "unused-variable-listed", W(f"assert not ms.variable_indices.get({v!r})"), f"{v}: {got}")
+    # ---- 7. accessors keyed by variables: defined for EVERY entry of spec.variables (values and callables alike) and
+    # equal to a recomputation from the matrix: the columns of exactly the terms whose factors mention the variable
+    def mentions(term, var):
+        for f in term.factors:
+            if f.eval_method.value == "literal":
                 continue
-            if got != want:
-                acc.fail("C10.variables.indices", "data-variable", W(f"assert ms.variable_indices[{v!r}] == {want!r}, ms.variable_indices"), f"variable {v}: {got}, columns of the terms using it: {want}")
-        if uses:
-            vs = [v for v in DATA_COLUMNS if v in uses][:2]
-            want = [i for v in vs for i in sorted(uses[v])]
-            ok, got = attempt("C10.variables.indices", "get_variable_indices", f"ms.get_variable_indices({vs!r})", lambda: ms.get_variable_indices(vs))
-            if ok and list(got) != want:
-                acc.fail("C10.variables.indices", "get_variable_indices", W(f"assert ms.get_variable_indices({vs!r}) == {want!r}"), f"{got} != {want}")
+            if f.eval_method.value == "lookup":
+                if f.expr == var:
+                    return True
+            elif re.search(r"(?<![\w.`])" + re.escape(var) + r"(?![\w`])", f.expr.replace(f"`{var}`", var)):
+                return True
+        return False
+
+    ok, variables = attempt("C10.variables.indices", "variables", "ms.variables", lambda: sorted(str(v) for v in ms.variables))
+    ok2, vi = attempt("C10.variables.indices", "variable_indices", "ms.variable_indices", lambda: {str(k): list(v) for k, v in ms.variable_indices.items()})
+    if ok and ok2:
+        for v in DATA_COLUMNS:  # every data column that some factor reads is a variable of the spec
+            if any(mentions(t, v) for t in terms) and v not in variables:
+                acc.fail("C10.variables.indices", "data-variable-missing", W(f"assert {v!r} in {{str(x) for x in ms.variables}}"), f"{v} is read by the formula but is no entry of variables {variables}")
+            if not any(mentions(t, v) for t in terms) and vi.get(v):
+                acc.fail("C10.variables.indices", "unused-variable-listed", W(f"assert not ms.variable_indices.get({v!r})"), f"{v}: {vi.get(v)}")
+        ok3, vt = attempt("C10.variables.terms", "variable_terms", "ms.variable_terms", lambda: {str(k): {str(t) for t in ts} for k, ts in ms.variable_terms.items()})
+        ok4, tv = attempt("C10.variables.terms", "term_variables", "ms.term_variables", lambda: {str(k): {str(x) for x in vs} for k, vs in ms.term_variables.items()})
+        for v in variables:
+            using = [t for t in terms if mentions(t, v)]
+            want = sorted({i for t in using for i in truth[id(t)]})
+            role = "data-variable" if v in DATA_COLUMNS else "callable-or-context-variable"
+            if v not in vi:
+                acc.fail("C10.variables.indices", f"{role}:undefined", W(f"assert ms.variable_indices[{v!r}] == {want!r}, dict(ms.variable_indices)"),
+                         f"`{v}` is an entry of spec.variables but variable_indices has no entry for it ({sorted(vi)})")
+            elif vi[v] != want:
+                acc.fail("C10.variables.indices", role, W(f"assert ms.variable_indices[{v!r}] == {want!r}, dict(ms.variable_indices)"),
+                         f"variable {v}: {vi[v]}, columns of the terms using it: {want}")
+            ok5, got = attempt("C10.variables.indices", f"get_variable_indices:{role}", f"ms.get_variable_indices([{v!r}])", lambda: list(ms.get_variable_indices([v])))
+            if ok5 and got != want:
+                acc.fail("C10.variables.indices", f"get_variable_indices:{role}", W(f"assert ms.get_variable_indices([{v!r}]) == {want!r}"), f"{got} != {want}")
+            # (a term that owns no column -- e.g. `x` after `2:x:B` -- has no scoped terms; whether it still counts as
+            # "using" the variable is not observable in the matrix and is not judged)
+            must = {str(t) for t in using if truth[id(t)]}
+            if ok3 and not (must <= (vt.get(v) or set()) <= {str(t) for t in using}):
+                acc.fail("C10.variables.terms", f"variable_terms:{role}", W(f"assert set({sorted(must)!r}) <= {{str(t) for t in ms.variable_terms[{v!r}]}} <= set({sorted(str(t) for t in using)!r})"),
+                         f"variable_terms[{v!r}] = {vt.get(v)}, terms mentioning it: {sorted(str(t) for t in using)}")
+        if ok4:
+            for t in terms:
+                want_v = {v for v in variables if mentions(t, v)}
+                if not truth[id(t)]:
+                    continue  # see above: terms without columns are not judged
+                if tv.get(str(t)) != want_v:
+                    acc.fail("C10.variables.terms", "term_variables", W(f"assert {{str(x) for x in ms.term_variables[terms[{str(t)!r}]]}} == set({sorted(want_v)!r})"),
+                             f"term_variables[{t}] = {tv.get(str(t))}, variables its factors mention: {sorted(want_v)}")
+        two = [v for v in variables if any(mentions(t, v) for t in terms)][:3]
+        if len(two) >= 2:
+            want = [i for v in two for i in sorted({i for t in terms if mentions(t, v) for i in truth[id(t)]})]
+            ok6, got = attempt("C10.variables.indices", "get_variable_indices", f"ms.get_variable_indices({two!r})", lambda: list(ms.get_variable_indices(two)))
+            if ok6 and got != want:
+                acc.fail("C10.variables.indices", "get_variable_indices", W(f"assert ms.get_variable_indices({two!r}) == {want!r}"), f"{got} != {want}")
 
     # ---- 8. subset regenerates exactly the parent's columns for those terms
     parent = dense(mm)
@@ -378,7 +416,7 @@ def check_case(acc, case):
             names_sel = [str(t) for t in sel]
             lookup = "[terms[n] for n in " + repr(names_sel) + "]"
             kw = ", ordering='none'" if ordering_kw == "none" else ""
-            asrt = (f"sub = ms.subset({lookup}{kw})\nm2 = sub.get_model_matrix(data, context={{'np': np}})\n"
+            asrt = (f"sub = ms.subset({lookup}{kw})\nm2 = sub.get_model_matrix(data, context=CONTEXT)\n"
                     f"idx = {idx!r}\n"
                     "d = lambda m: np.asarray(m.toarray() if hasattr(m, 'toarray') else m, dtype=float)\n"
                     "assert list(sub.column_names) == [ms.column_names[i] for i in idx], (sub.column_names, [ms.column_names[i] for i in idx])\n"
@@ -416,7 +454,7 @@ def term_pool():
     """Fixed pool for the exhaustive part (includes unsorted interactions, a single-level factor, multi-column transforms)."""
     return ["x", "A", "U", "z:x", "B:A", "x:A", "A:B", "poly(x, 3)", "bs(w, df=4)", "C(A, contr.sum)", "poly(z, 2):A",
             "`my col`:x", "x:U", "C(B):x", "center(x)", "w:z:x", "C(A, contr.helmert):B", "np.log(x + 1)",
-            "3:w", "2:x:B", "z:A"]
+            "3:w", "2:x:B", "z:A", "fn(z)", "I(x * z):A"]
 
 
 def worker(args):
@@ -470,13 +508,13 @@ def run_bounded(ctx):
                             ex_cases.append({"spec": spec, "ordering": ordering, "data": ("d8", "d12")[i % 2], "output": out, "cluster": cluster})
     with ctx.bounded(
         "modelspec-metadata-small-formulas",
-        rule="every formula of 1 term and every ordered pair of terms (thorough: all; quick: a fixed third) from a pool of 21 terms "
+        rule="every formula of 1 term and every ordered pair of terms (thorough: all; quick: a fixed third) from a pool of 23 terms "
              "(unsorted interactions, single-level factor => zero-column terms, poly/bs/C(contr) multi-column transforms, quoted name, literal multipliers `3:w`) "
              "x intercept on/off x ordering degree/none x cluster_by none/numerical_factors (quick: every third) x 2 data frames x outputs pandas/numpy/sparse (quick: one output per formula, "
              "rotating); evaluations also count each subset() regeneration; extra distinct keys mark cases with a zero-column term, "
              "an unsorted interaction or a multi-column transform; non-trivial = >= 2 terms and >= 2 columns",
         exhaustive=bool(ctx.thorough),
-        bound="terms <= 2 of 21 (+ intercept); rows 8/12",
+        bound="terms <= 2 of 23 (+ intercept); rows 8/12",
     ) as b:
         with ProcessPoolExecutor(16) as ex:
             _collect(b, list(ex.map(worker, _chunks(ex_cases, 64))), total, stats)
@@ -528,8 +566,8 @@ def run_bounded(ctx):
         "re-materialization with pandas output); cases where prefix labels are not a prefix of the full labels fall back to the "
         "oracle-free laws (partition, accessor agreement, subset == parent columns)",
         "C10-labels: numpy and sparse outputs carry no labels; only the column count is compared there",
-        "C10-variables: judged for data columns; a term 'uses' a variable iff the identifier occurs in one of its factor expressions "
-        "(python ast); callables/dotted names are not judged",
+        "C10-variables: judged for every entry of spec.variables (values, callables, dotted names); a term 'uses' a variable iff the "
+        "name occurs as a token in one of its factor expressions (a lookup factor uses exactly its own name)",
         "C10-specs: get_term_indices/subset are driven with lists of Term objects (string specs re-enter the formula parser, which adds "
         "an intercept to a bare string and cannot read the printed form of a quoted name)",
         "A-float: subset values compared with atol 1e-12 (identical code path and state; stateful transforms reuse the parent's state)",
